@@ -15,16 +15,18 @@ Decided:
         parse_h2_request_headers consumes exactly {:method,:scheme,:path (required), :authority (optional, default b"")} and
         parse_h2_response_headers exactly {:status}: a missing required, an unknown or a repeated pseudo-header -> ValueError,
         the regular fields are returned complete and in order; at the call sites (HTTP/2, HTTP/3) every parsed value reaches
-        http.Request(...) / http.Response(...) under the same-named parameter (dataflow from the parser's result to the
-        constructor, the position -> pseudo-header table is extracted by interpreting the parser) with the right http_version.
+        http.Request(...) / http.Response(...) under the same-named field with the right http_version: the call site is
+        interpreted on header blocks with sentinel pseudo-header values and the message it builds is inspected (helpers, star
+        arguments, unpacking order do not matter); only when a call site cannot be interpreted in the modelled set-up the
+        rule falls back to def-use from the parser's result to the constructor call inside the anchor function.
   R06.2 HTTP/2|3 -> HTTP/1 conversion. Http1Client.send(RequestHeaders): for an h2/h3 request the message whose head is sent has
         http_version HTTP/1.1, an empty authority, a Host header taken from the authority iff there was no Host header and the
         authority is non-empty, several Cookie headers joined with "; ", every other field and header unchanged - and the flow's
         own request (event.request) is exactly as before; an HTTP/1 request is sent unmodified.
         Http1Server.send(ResponseHeaders): same with HTTP/1.1 (a made-up reason phrase is allowed, not demanded).
-  R06.3 inbound validation / HTTP/1 -> HTTP/2: Http2Connection.__init__ takes h2_conf.validate_inbound_headers from
-        context.options.validate_inbound_headers before the h2 connection is created from that configuration and nothing else
-        in _http2.py writes another value; both formatters hand an HTTP/1 header block (complete, in order) to hyper-h2's
+  R06.3 inbound validation / HTTP/1 -> HTTP/2: Http2Connection.__init__ (interpreted with the option on and off; path
+        enumeration as fallback) takes h2_conf.validate_inbound_headers from context.options.validate_inbound_headers before
+        the one h2 connection is created from that configuration and nothing else in _http2.py writes another value; both formatters hand an HTTP/1 header block (complete, in order) to hyper-h2's
         normalize_outbound_headers with the right client/response flags and emit its result, and never do that for an h2/h3
         block; for an HTTP/1 request the Host header becomes :authority only when authority is empty, and the flow's own
         headers are untouched by that.
@@ -53,11 +55,13 @@ from ..model import attr_chain
 from ..model import last_attr
 from ..pyint import Gen
 from ..pyint import Interp
+from ..pyint import NullLog
 from ..pyint import Raised
 from ..pyint import Rec
 from ..pyint import _Return
 from ..selftest import Mutant
 from ._helpers_A import ASpec
+from ._helpers_A import SeqPatterns
 from ._helpers_A import params_of
 from ._helpers_A import run_block
 from ._helpers_A import show
@@ -245,24 +249,6 @@ class _H2:
         self.utilities = SimpleNamespace(normalize_outbound_headers=normalize_outbound_headers, HeaderValidationFlags=_Flags)
 
 
-class _NullLogger:
-    def _noop(self, *a, **k):
-        return None
-
-    debug = info = warning = warn = error = critical = exception = log = _noop
-
-    def isEnabledFor(self, *a):
-        return False
-
-    def getChild(self, *a):
-        return self
-
-
-_NULL_LOGGER = _NullLogger()
-_LOGGING = SimpleNamespace(DEBUG=10, INFO=20, WARNING=30, WARN=30, ERROR=40, CRITICAL=50, NOTSET=0, getLogger=lambda *a: _NULL_LOGGER,
-                           debug=_NULL_LOGGER._noop, info=_NULL_LOGGER._noop, warning=_NULL_LOGGER._noop, error=_NULL_LOGGER._noop)
-
-
 class _Done:
     """A finished call of a repository generator function: the values it yielded and its return value."""
 
@@ -277,13 +263,13 @@ class _Head:
         self.msg, self.state = msg, _state(msg)
 
 
-class _Sem(Interp):
+class _Sem(SeqPatterns, Interp):
     """pyint with (a) generator calls executed eagerly - side effects on shared lists / messages are kept, ``x = yield from g()``
     gets g's return value; commands are collected, ``yield`` evaluates to None -, (b) item writes and iteration on the Headers
-    model, (c) a null ``logging``, ``__name__``."""
+    model, (c) pyint's null ``logging`` (module and logger objects: every logging call is a no-op)."""
 
     def __init__(self, model, lib=None):
-        super().__init__(model, trusted_modules={"h2": lib or _H2(), "logging": _LOGGING, "time": _time, "re": _re, "urllib": _urllib, "ipaddress": _ipaddress})
+        super().__init__(model, trusted_modules={"h2": lib or _H2(), "logging": NullLog(), "time": _time, "re": _re, "urllib": _urllib, "ipaddress": _ipaddress})
         self._collect: list[list] = []
         for rel in (HTTP, H1, H2, H3):
             self.overrides[(rel, "Headers")] = _Headers
@@ -321,10 +307,6 @@ class _Sem(Interp):
             return v.value if isinstance(v, _Done) else None
         return super().ev(e, env, mod, depth)
 
-    def comp(self, e, env, mod, depth):
-        out = super().comp(e, env, mod, depth)
-        return iter(out) if isinstance(e, ast.GeneratorExp) else out  # a generator expression is an iterator (next(), single pass)
-
     def iterate(self, v, node):
         if isinstance(v, _Done):
             return list(v.yields)
@@ -349,13 +331,8 @@ class _Sem(Interp):
                 return
         super().assign(target, value, env, mod, depth)
 
-    def name(self, ident, env, mod, depth, node):
-        if ident == "__name__" and ident not in env:
-            return mod.rel[:-3].replace("/", ".")
-        return super().name(ident, env, mod, depth, node)
-
     def native_call(self, f, args, kwargs, where):
-        if f is _Head or isinstance(getattr(f, "__self__", None), _NullLogger) or getattr(f, "_abstract_ok", False):
+        if f is _Head or getattr(f, "_abstract_ok", False):
             return f(*args, **kwargs)
         return super().native_call(f, args, kwargs, where)
 
@@ -818,10 +795,91 @@ class _Flow:
         raise AnalysisError(f"{self.fn.name}: value of {norm(e)} is not a constant the rule can follow")
 
 
+class _H2Event:
+    """An event object of hyper-h2 (h2.events.RequestReceived / ResponseReceived) as far as the call sites read it."""
+
+    def __init__(self, **kw):
+        self.__dict__.update(kw)
+
+
+class _RequestReceived(_H2Event):
+    pass
+
+
+class _ResponseReceived(_H2Event):
+    pass
+
+
+_SITE_SENTINELS = (
+    {b":method": METHOD, b":scheme": SCHEME, b":path": PATH, b":authority": AUTHORITY, b":status": STATUS},
+    {b":method": b"PATCH", b":scheme": b"http", b":path": b"/other?x=2", b":authority": b"second.example:81", b":status": 418},
+)
+
+
+def _site_message(ctx, rel, qual, ctor, sent):
+    """The http.Request / http.Response the call site ``rel::qual`` builds from a well-formed header block carrying the sentinel
+    pseudo-header values ``sent``, found by *interpreting* the call site (helper calls, temporaries, unpacking order and the way the
+    constructor is reached do not matter) - or None when the call site cannot be interpreted in the modelled set-up."""
+    cls_name, meth = qual.rsplit(".", 1)
+    names = (b":method", b":scheme", b":path", b":authority") if ctor == "Request" else (b":status",)
+    block = [(n, sent[n] if isinstance(sent[n], bytes) else b"%d" % sent[n]) for n in names] + list(REGULAR)
+    lib = _H2()
+    lib.events = SimpleNamespace(RequestReceived=_RequestReceived, ResponseReceived=_ResponseReceived)
+    it = _Sem(ctx.model, lib)
+    try:
+        mod = ctx.model.module(rel)
+        streams = {}
+        if rel == H2 and ctor == "Response":  # a response is only accepted on a stream whose request headers were sent
+            streams[1] = it.getattr(it.name("StreamState", {}, mod, 0, None), "EXPECTING_HEADERS", None, 0)
+        me = Rec(cls_name, _bases=tuple(c.name for _, c in ctx.model.mro(rel, cls_name)[1:]), _impl=(rel, cls_name), context=_context(), conn=Rec("Connection", state=3),
+                 streams=streams, our_stream_id={}, their_stream_id={})
+        if rel == H2:
+            event = (_RequestReceived if ctor == "Request" else _ResponseReceived)(stream_id=1, headers=block, stream_ended=None, priority_updated=None)
+        else:
+            event = Rec("HeadersReceived", _bases=("H3Event",), stream_id=1, headers=block, stream_ended=False, push_id=None)
+        res = it.method(me, meth, event)
+    except (AnalysisError, Raised, RecursionError):
+        return None
+    found = []
+
+    def walk(v, depth):
+        if isinstance(v, Rec):
+            if v.isa(ctor) and isinstance(getattr(v, "data", None), Rec):
+                found.append(v)
+            elif depth < 6:
+                for k, x in vars(v).items():
+                    if not k.startswith("_"):
+                        walk(x, depth + 1)
+        elif isinstance(v, (list, tuple)) and depth < 6:
+            for x in v:
+                walk(x, depth + 1)
+
+    walk([res.yields, res.value] if isinstance(res, _Done) else res, 0)
+    return found[0] if len(found) == 1 else None
+
+
 def _call_site(ctx, rel, qual, parser, roles, ctor, want, version):
     fn = ctx.func(rel, qual)
     mod = ctx.model.module(rel)
     w = (rel, qual, fn)
+    # decided by interpretation where the call site can be interpreted (twice, with different sentinel values) ...
+    msgs = [(sent, _site_message(ctx, rel, qual, ctor, sent)) for sent in _SITE_SENTINELS]
+    if all(m is not None for _, m in msgs):
+        ctx.cells += len(msgs)
+        for field, pseudo in want.items():
+            got = [getattr(m.data, field, None) for _, m in msgs]
+            ctx.check(all(type(g) is type(sent[pseudo]) and g == sent[pseudo] for g, (sent, _) in zip(got, msgs)), "R06.1", w, f"http.{ctor}({field}=...) origin",
+                      f"http.{ctor}'s `{field}` must be the value of the {pseudo.decode()} pseudo-header, but a header block with {pseudo.decode()}: {msgs[0][0][pseudo]!r} yields {field} = {got[0]!r}",
+                      desc=f"{qual}: {ctor}.{field} <- {pseudo.decode()}")
+        hv = [getattr(m.data, "http_version", None) for _, m in msgs]
+        ctx.check(all(v in (version, version.decode()) for v in hv), "R06.1", w, f"http.{ctor}(http_version=...)", f"a message received over {version.decode()} must be recorded with that version (the down-conversion to HTTP/1 keys on it), saw {hv[0]!r}",
+                  desc=f"{qual}: {ctor}.http_version = {version.decode()}")
+        hd = [getattr(m.data, "headers", None) for _, m in msgs]
+        ctx.check(all(isinstance(h, _Headers) and list(h.fields) == REGULAR for h in hd), "R06.1", w, f"http.{ctor}(headers=...)", "the regular header fields returned by the parser must become the message's headers",
+                  desc=f"{qual}: {ctor}.headers <- parsed regular headers")
+        return
+    # ... else by def-use from the parser's result to the constructor call inside the anchor function
+    ctx.note(f"{qual}: call site not interpretable in the modelled set-up, decided by def-use")
     flow = _Flow(ctx.model, mod, fn, parser)
     ctx.require(sum(1 for n in ast.walk(fn) if flow.is_parser_call(n)) == 1, f"{qual}: expected exactly one call of {parser.name}")
     ctors = []
@@ -975,6 +1033,54 @@ def _downconvert(ctx, cls, msg, hdr_event, assemble):
 OPT = "validate_inbound_headers"
 
 
+def _expanded_chain(e, fn, depth=0) -> str:
+    """Dotted text of an attribute chain with single-assignment local aliases of its root expanded (``o = self.context.options`` ...
+    ``o.x`` -> ``self.context.options.x``); '' when ``e`` is no attribute chain."""
+    ch = attr_chain(e) or ""
+    if not ch or fn is None or depth > 3:
+        return ch
+    root, _, rest = ch.partition(".")
+    binds = [n for n in ast.walk(fn) if isinstance(n, (ast.Assign, ast.AnnAssign, ast.NamedExpr)) and getattr(n, "value", None) is not None
+             and any(isinstance(t, ast.Name) and t.id == root for t in (n.targets if isinstance(n, ast.Assign) else [n.target]))]
+    stores = [n for n in ast.walk(fn) if isinstance(n, ast.Name) and n.id == root and isinstance(n.ctx, ast.Store)]
+    if len(binds) == 1 and len(stores) == 1:
+        base = _expanded_chain(binds[0].value, fn, depth + 1)
+        if base:
+            return base + ("." + rest if rest else "")
+    return ch
+
+
+def _init_by_interpretation(ctx):
+    """[(option value, [(created from self.h2_conf?, conf.validate_inbound_headers at creation)...], value when __init__ returns)] for
+    Http2Connection.__init__ interpreted with the option on and off, or None when __init__ cannot be interpreted in this set-up."""
+    import collections as _collections
+
+    out = []
+    for opt in (True, False):
+        it = _Sem(ctx.model)
+        it.trusted.setdefault("collections", _collections)
+        conf = Rec("H2Configuration", _name="self.h2_conf", logger=None, **{OPT: "<not set>"})
+        created = []
+
+        def make(c=None, *a, **k):
+            created.append((c is conf, getattr(c, OPT, None) if isinstance(c, Rec) else None))
+            return Rec("BufferedH2Connection", config=c)
+
+        make._abstract_ok = True
+        it.overrides[(H2, "BufferedH2Connection")] = make
+        context = _context()
+        object.__setattr__(context.options, OPT, opt)
+        for k, v in (("client", Rec("Client", peername=("client", 1), state=3)), ("server", Rec("Server", peername=("server", 1), state=3)), ("layers", [])):
+            object.__setattr__(context, k, v)
+        me = Rec("Http2Connection", _bases=tuple(c.name for _, c in ctx.model.mro(H2, "Http2Connection")[1:]), _impl=(H2, "Http2Connection"), h2_conf=conf)
+        try:
+            it.method(me, "__init__", context, context.client)
+        except (AnalysisError, Raised, RecursionError):
+            return None
+        out.append((opt, created, getattr(conf, OPT, None)))
+    return out
+
+
 def _validation_option(ctx):
     fn = ctx.func(H2, "Http2Connection.__init__")
     w = (H2, "Http2Connection.__init__", fn)
@@ -1026,18 +1132,37 @@ def _validation_option(ctx):
                 out.append(("opt", canon(n.args[2], st, sp) or norm(n.args[2])))
         return out
 
-    traces, _ = run_block(fn.body, ASpec(label=label, val=val, unroll=1), {p: ("param", p) for p in ps})
-    ctx.paths += len(traces)
-    ctx.require(traces, "Http2Connection.__init__: no path")
-    bad = None
-    for tr, how, _ in traces:
-        if how != "return":
-            continue
-        toks = [t for t in tr if t[0] in ("opt", "conn")]
-        conns = [i for i, t in enumerate(toks) if t[0] == "conn"]
-        opts = [i for i, t in enumerate(toks) if t[0] == "opt"]
-        if len(conns) != 1 or toks[conns[0]][1] != "from self.h2_conf" or not opts or min(opts) > conns[0] or any(toks[i][1] != f"CTX.options.{OPT}" for i in opts):
-            bad = toks
+    observed = _init_by_interpretation(ctx)
+    if observed is not None:
+        # decided by interpreting __init__ for both values of the option: one h2 connection, created from self.h2_conf, which carries the
+        # option's value at that moment and when __init__ returns (helpers, aliases, setattr ... do not matter)
+        ctx.cells += len(observed)
+        bad = None
+        for opt, created, final in observed:
+            if len(created) != 1 or created[0] != (True, opt) or final is not opt:
+                bad = [("option", opt), ("h2 connections created (from self.h2_conf?, validate_inbound_headers at that moment)", created), ("validate_inbound_headers when __init__ returns", final)]
+    else:
+        ctx.note("Http2Connection.__init__ not interpretable in the modelled set-up, decided by path enumeration")
+
+        def resolver(call):
+            f = call.func
+            if isinstance(f, ast.Attribute) and isinstance(f.value, ast.Name) and f.value.id == "self":
+                r = ctx.model.method(H2, "Http2Connection", f.attr)
+                return r[1] if r is not None and r[0].rel == H2 else None
+            return None
+
+        traces, _ = run_block(fn.body, ASpec(label=label, val=val, resolver=resolver, unroll=1), {p: ("param", p) for p in ps})
+        ctx.paths += len(traces)
+        ctx.require(traces, "Http2Connection.__init__: no path")
+        bad = None
+        for tr, how, _ in traces:
+            if how != "return":
+                continue
+            toks = [t for t in tr if t[0] in ("opt", "conn")]
+            conns = [i for i, t in enumerate(toks) if t[0] == "conn"]
+            opts = [i for i, t in enumerate(toks) if t[0] == "opt"]
+            if len(conns) != 1 or toks[conns[0]][1] != "from self.h2_conf" or not opts or min(opts) > conns[0] or any(toks[i][1] != f"CTX.options.{OPT}" for i in opts):
+                bad = toks
     ctx.check(bad is None, "R06.3", w, "h2_conf.validate_inbound_headers <- option", "hyper-h2's inbound header validation must follow context.options.validate_inbound_headers (set before the h2 connection is "
               f"created from self.h2_conf); saw {show(bad) if bad else ''}", desc="Http2Connection.__init__: validate_inbound_headers <- context.options.validate_inbound_headers, then the h2 connection is created from self.h2_conf")
     # nothing else may decide the setting: every other write / constructor keyword in _http2.py carries the option's value too
@@ -1053,7 +1178,7 @@ def _validation_option(ctx):
                         f = getattr(f, "_parent", None)
                     if f is fn:
                         continue
-                    if not (attr_chain(n.value) or "").endswith(f"options.{OPT}"):
+                    if not _expanded_chain(n.value, f).endswith(f"options.{OPT}"):
                         stray.append(norm(n))
     ctx.check(not stray, "R06.3", (H2, "Http2Connection", ctx.model.cls(H2, "Http2Connection")), "validate_inbound_headers not pinned", f"validate_inbound_headers is set to something else than the option: {stray}",
               desc="no other write to validate_inbound_headers in _http2.py")
